@@ -67,6 +67,9 @@ func init() {
 				}
 			case 2:
 				rkey = kp("k2")
+				if okey != nil && c.Idx%2 == 1 {
+					rkey = kp("K1") // a different key that equals the original one only under case folding
+				}
 			}
 			D := T0 + 50
 			// --- bring the promise into the situation
